@@ -37,6 +37,13 @@ type Case struct {
 	Via   string `json:"via,omitempty"`
 	// Compete (c07): the competing texts per channel (query, query2, body).
 	Compete map[string]string `json:"compete,omitempty"`
+	// c07: Whole = the handler's whole message must equal Msg (the capture
+	// plus every non-competing parameter); Repeat = serve the request this
+	// many times (query parameters are applied in map order); Extra = class
+	// of the non-competing parameters.
+	Whole  bool   `json:"whole,omitempty"`
+	Repeat int    `json:"repeat,omitempty"`
+	Extra  string `json:"extra,omitempty"`
 	// Reply: wire bytes (type Rule.Out) of the handler's reply (c04).
 	Reply     []byte `json:"reply,omitempty"`
 	ReplyJSON string `json:"reply_json,omitempty"`
